@@ -133,7 +133,7 @@ def cross_knn(X, Y, k=1):
         raise ValueError('k is nan')
     if np.isinf(k):
         raise ValueError('k is inf')
-    k = min(k, Y.shape[0] -1)
+    k = min(k, Y.shape[0])
 
     ij = np.zeros((0, 2))
     data = np.zeros(0)
